@@ -1,5 +1,5 @@
 """C19 — WAL files are deleted only after a complete, lossless archive exists."""
-import base64, json, math, re, struct
+import base64, json, math, os, re, shutil, struct
 import vlib
 from vlib import hx
 from props import base
@@ -608,11 +608,18 @@ def cases(rng, tier):
 def run_sides(cases_, model_ok):
     lines = [c["line"] for c in cases_]
     impl = [None] * len(lines)
-    for mode in ("c", "p"):
-        idx = [i for i, l in enumerate(lines) if (l.split()[1] if l.startswith("walarch_run") else "c") == mode]
-        res = vlib.run_lines(vlib.VHARN, ["fn"], [lines[i] for i in idx], timeout=900, env={"WALARCH_MODE": mode})
-        for i, r in zip(idx, res):
-            impl[i] = r
+    # the probe creates its directories under TMPDIR; give each run a private one and remove it afterwards
+    tmp = os.path.join(vlib.WORK, f"walarch-{os.getpid()}")
+    os.makedirs(tmp, exist_ok=True)
+    try:
+        for mode in ("c", "p"):
+            idx = [i for i, l in enumerate(lines) if (l.split()[1] if l.startswith("walarch_run") else "c") == mode]
+            res = vlib.run_lines(vlib.VHARN, ["fn"], [lines[i] for i in idx], timeout=900,
+                                 env={"WALARCH_MODE": mode, "TMPDIR": tmp})
+            for i, r in zip(idx, res):
+                impl[i] = r
+    finally:
+        shutil.rmtree(tmp, ignore_errors=True)
     model = vlib.run_lines(vlib.MODEL_RUN, [], lines, timeout=900) if model_ok else [None] * len(lines)
     return impl, model
 
